@@ -113,6 +113,21 @@ impl Prop for C02 {
                 let b = *rng.pick(&bdivs); // reader bucket = b * pbl
                 (d / b, iv)
             } else {
+                // interval divides the ring's interval, bucket longer than the ring's bucket but not a multiple of it
+                let mut near: Vec<(u32, u32)> = vec![];
+                for iv in (1..=piv).filter(|iv| piv % iv == 0) {
+                    for sc in 1..=iv.min(20) {
+                        if iv % sc == 0 && (iv / sc) > pbl && (iv / sc) % pbl != 0 {
+                            near.push((sc, iv));
+                        }
+                    }
+                    if near.len() > 64 {
+                        break;
+                    }
+                }
+                if !near.is_empty() && rng.chance(1, 3) {
+                    return *rng.pick(&near);
+                }
                 match rng.below(5) {
                     0 => (0, piv),
                     1 => (1, 0),
